@@ -180,6 +180,18 @@ Theorem C03_write_by_extension : forall w fa p e stem,
 Proof. exact write_by_extension. Qed.
 Print Assumptions C03_write_by_extension.
 
+(* the regenerated ARCHIVE_EXTS holds every extension shutil.unpack_archive knows (.zip .tar .tar.gz .tgz .tar.bz2 .tbz2
+   .tar.xz .txz), so a plain local name with one of them is unpacked as an archive *)
+Theorem C03_archive_exts_complete : subset_str KNOWN_ARCHIVE_EXTS ARCHIVE_EXTS = true.
+Proof. exact archive_exts_complete. Qed.
+Print Assumptions C03_archive_exts_complete.
+
+Theorem C03_resolve_known_archive : forall dd ex stem e a,
+  In e KNOWN_ARCHIVE_EXTS -> plain_name (stem ++ dot :: e) = true ->
+  resolve dd ex (FStr (stem ++ dot :: e)) a = DArchive (stem ++ dot :: e) (match a with AStr s => Some s | _ => None end).
+Proof. exact resolve_known_archive. Qed.
+Print Assumptions C03_resolve_known_archive.
+
 (* fmt given / omitted: when detection succeeds, reading with fmt omitted hands the same handle state (content, position,
    kind) and the same options to the same plugin as reading with that fmt given; it fails exactly when nothing is detected *)
 Theorem C03_read_fmt_given_or_detected : forall w o h d h',
